@@ -8,6 +8,8 @@
     ser write <path> <tree>
     ser xml_string <cdata> <gt> <indent> <decl> <doctype> <path> <tree>
     ser xml_write  <cdata> <gt> <indent> <decl> <doctype> <path> <tree>
+    ser xml_string_norm <cdata> <gt> <indent> <decl> <doctype> <path> <tree>
+        `serialize_xml_string_with_normalizer` with the fullwidth-forms normalizer (`fullwidthNorm`)
 
   <cdata>, <suppress> : `-` or comma-separated name ids;  <gt> : 0 | 1
   <indent>  : `-` (no indentation) | `i` (empty suppress list) | `i<ids>`
@@ -16,7 +18,7 @@
   Events: `<path>/so/<name>`, `/sc`, `/et/<name>`, `/px/<prefix>/<ns>`, `/at/<name>/<str>`,
   `/tx/<str>`, `/cm/<str>`, `/pi/<target>/<str|->`.
 -/
-import XotModel.Model.XmlDecl
+import XotModel.Model.Normalizer
 import XotModel.Driver.Tree
 
 namespace XotModel.Driver
@@ -117,6 +119,12 @@ def handleSer (st : DState) : List String → Option String
         ← parseBool01 gt⟩
       let (t, p) ← parseTreeAt path toks
       some (showOutcome st.env (fun s => "ok " ++ encStr s) (serializeXmlString st.env pr t p))
+  | "xml_string_norm" :: cd :: gt :: ind :: decl :: dt :: path :: toks => do
+      let pr : XmlParams := ⟨← parseIndent ind, ← parseNatList cd, ← parseDecl decl, ← parseDoctype dt,
+        ← parseBool01 gt⟩
+      let (t, p) ← parseTreeAt path toks
+      some (showOutcome st.env (fun s => "ok " ++ encStr s)
+        (serializeXmlStringWith (normEscapers fullwidthNorm) st.env pr t p))
   | "xml_write" :: cd :: gt :: ind :: decl :: dt :: path :: toks => do
       let pr : XmlParams := ⟨← parseIndent ind, ← parseNatList cd, ← parseDecl decl, ← parseDoctype dt,
         ← parseBool01 gt⟩
